@@ -10,15 +10,15 @@ use crate::wrap::CutPlan;
 pub fn solver_arm_opts(arm: &str) -> Option<ArmOpts> {
     let d = ArmOpts::default();
     Some(match arm {
-        "seq-free" => ArmOpts { perturb: true, ..d },
-        "par-free" => ArmOpts { parallel: true, perturb: true, ..d },
+        "seq-free" => ArmOpts { perturb: true, knapsack_quarters: 1, ..d },
+        "par-free" => ArmOpts { parallel: true, perturb: true, knapsack_quarters: 1, ..d },
         "par-free-wide" => ArmOpts { parallel: true, perturb: true, max_threads: 8, ..d },
-        "par-cutoff" => ArmOpts { parallel: true, cut: true, ..d },
+        "par-cutoff" => ArmOpts { parallel: true, cut: true, knapsack_quarters: 1, ..d },
         "par-flaky" => ArmOpts { parallel: true, flaky_cut: true, max_threads: 8, ..d },
         "par-threads" => ArmOpts { parallel: true, thread_change: true, max_threads: 5, ..d },
         "par-threads-cutoff" => ArmOpts { parallel: true, thread_change: true, cut: true, max_threads: 5, ..d },
-        "seq-cache" => ArmOpts { force_cache: Some(true), reconverge: true, ..d },
-        "par-cache" => ArmOpts { parallel: true, force_cache: Some(true), reconverge: true, ..d },
+        "seq-cache" => ArmOpts { force_cache: Some(true), reconverge: true, knapsack_quarters: 2, ..d },
+        "par-cache" => ArmOpts { parallel: true, force_cache: Some(true), reconverge: true, knapsack_quarters: 2, ..d },
         "seq-dom" => ArmOpts { force_dom: Some(true), ..d },
         "par-dom" => ArmOpts { parallel: true, force_dom: Some(true), ..d },
         "seq-primal" => ArmOpts { primal: true, ..d },
@@ -131,7 +131,7 @@ pub fn run_scenario(sc: &Scenario, run: u64, agg: &mut Agg, pre: &dyn Fn(&Scenar
 /// C05 (sequential) + C19: for one sampled (instance, configuration) the uninterrupted run gives K polls,
 /// then every cutoff index k in 1..=K+1 is executed (fault enumeration over the crash point).
 pub fn run_seq_sweep(arm: &str, seed: u64, run: u64, agg: &mut Agg, explicit: Option<&Scenario>) -> Option<ViolationRecord> {
-    let opts = if arm == "seq-sweep-nodup" { ArmOpts { force_nodup: true, reconverge: true, force_cache: Some(false), ..Default::default() } } else { ArmOpts::default() };
+    let opts = if arm == "seq-sweep-nodup" { ArmOpts { force_nodup: true, reconverge: true, force_cache: Some(false), knapsack_quarters: 3, ..Default::default() } } else { ArmOpts { knapsack_quarters: 1, ..Default::default() } };
     let base = match explicit { Some(s) => s.clone(), None => { let mut s = solve::generate(arm, seed, opts); s.cut = CutPlan::Never; s } };
     let mut viol: Vec<Violation> = vec![];
     let full = solve::execute(&base);
